@@ -113,13 +113,15 @@ fn c02_case(e: &Entry, i: usize, v: &Val, st: &mut Stats, thorough: bool) {
             if d.out.is_panic() || dd.is_panic() {
                 continue;
             }
+            // one direction only: whatever the derived impl accepts, the field-by-field procedure
+            // accepts with the same meaning (the derived impl may be stricter on damaged input)
             let same = match (&d.out, &dd) {
                 (Out::Ok(x), Out::Ok(y)) => canon(&e.ty, x) == canon(&e.ty, y),
-                (Out::Err(_), Out::Err(_)) => true,
+                (Out::Err(_), _) => true,
                 _ => false,
             };
             if !same {
-                bad(st, "derived-and-driver-disagree-on-damaged-input", d.out.class(), json!({"bytes": hex(&inp), "derived": format!("{:?}", d.out).chars().take(200).collect::<String>(), "driver": format!("{dd:?}").chars().take(200).collect::<String>()}));
+                bad(st, "derived-accepts-damaged-input-the-field-by-field-procedure-rejects", d.out.class(), json!({"bytes": hex(&inp), "derived": format!("{:?}", d.out).chars().take(200).collect::<String>(), "driver": format!("{dd:?}").chars().take(200).collect::<String>()}));
                 return;
             }
         }
